@@ -600,7 +600,6 @@ pub fn judge(sc: &Scenario, obs: &Observed, cx: &mut Cx) -> Result<Result<(), St
 
     let after_drop = sc.ending != Ending::Flush;
     for s in &healthy {
-        let unread_drop = log.iter().any(|r| r.signal == Some(*s) && r.outcome == Outcome::Dropped && r.phase == Phase::Done && r.records.is_empty() && r.decision == Decision::CloseBeforeRead);
         for id in obs.emitted.get(s).into_iter().flatten() {
             if acked.contains_key(id) {
                 continue;
@@ -612,9 +611,9 @@ pub fn judge(sc: &Scenario, obs: &Observed, cx: &mut Cx) -> Result<Result<(), St
                     "failed-request-not-resent/{}",
                     decision_label(&last.decision, last.transport)
                 )
-            } else if unread_drop {
-                "failed-request-not-resent/close-before-read".to_string()
             } else {
+                // no request the collector could read ever carried it (requests dropped before their
+                // body was read cannot be attributed)
                 "event-never-sent".to_string()
             };
             let sig = if after_drop { format!("{what}/after-emitter-dropped") } else { what };
@@ -622,9 +621,12 @@ pub fn judge(sc: &Scenario, obs: &Observed, cx: &mut Cx) -> Result<Result<(), St
             cx.fail(
                 sig,
                 format!(
-                    "{s:?} event {id} was accepted by emit but is in no acknowledged request{outage} (flush={:?}, waited {:?}); requests of this signal: {}",
-                    obs.flush,
-                    timing::settle(sc.max_failures(), sc.max_stalls()),
+                    "{s:?} event {id} was accepted by emit but is in no acknowledged request{outage} ({}); requests of this signal: {}",
+                    match obs.flush {
+                        Some(true) => "blocking_flush returned true".to_string(),
+                        Some(false) => "blocking_flush timed out and the bounded wait after it expired".to_string(),
+                        None => "the bounded wait expired".to_string(),
+                    },
                     describe(log, *s)
                 ),
             )?;
@@ -636,7 +638,8 @@ pub fn judge(sc: &Scenario, obs: &Observed, cx: &mut Cx) -> Result<Result<(), St
         let acked_then = acked_in(&obs.log_at_flush);
         for s in &healthy {
             for id in obs.emitted.get(s).into_iter().flatten() {
-                if !acked_then.contains_key(id) {
+                // (events that are never acknowledged at all are reported above)
+                if !acked_then.contains_key(id) && acked.contains_key(id) {
                     cx.fail(
                         "flush-reported-success-before-acknowledgement",
                         format!("blocking_flush returned true but {s:?} event {id} was in no acknowledged request at that moment; requests of this signal: {}", describe(&obs.log_at_flush, *s)),
